@@ -109,3 +109,28 @@ Theorem C04_matcher_invariant_for_all_histories : forall terms ops hs s, List.Fo
   run_ops terms ops [] empty_egraph = Ok (hs, s) -> match_inv s.
 Proof. exact match_inv_reachable_static. Qed.
 Print Assumptions C04_matcher_invariant_for_all_histories.
+
+(* third session, second round (EGraph/MatchEmbed{Defs,Eq,,Check}.v, MatchCompleteAll.v): NESTED patterns.  The proof splits at a
+   predicate `emb_root s theta zeta p a` ("the instance (theta, zeta) of p is embedded at invocation a": at every pattern node the
+   enumeration enodes_applied / weak_variants lists a node whose children embed the sub-instances; it mentions the e-graph only,
+   never the matcher).  MATCHER SIDE, PROVED for every pattern depth, repeated variables and binders, with neither ss_ok nor
+   no-redundant-slot premise: an embedded instance is reported by the matcher (C04_embedded_instances_are_matched).  E-GRAPH SIDE:
+   that every represented instance in scope is embedded (`repr_emb s`) is NOT proved; it is validated by vm_compute for all 11280
+   represented instances of 194 patterns on the 213 states without redundant slot (MatchEmbedCheck.v), fails exactly on states
+   with a redundant slot (the excluded scope) and never holds where the matcher misses.  `binder_clash` / `bare_variable_dead_class`
+   show the two side conditions (bound names of the pattern fresh for the matched class; pattern is not a bare variable). *)
+From SE Require Import EGraph.UnionInvariantFacts EGraph.MatchReprDeep EGraph.MatchEmbedDefs EGraph.MatchEmbed EGraph.MatchCompleteAll.
+Theorem C04_embedded_instances_are_matched : forall (s : egraph) (theta : slotmap) (zeta : subst),
+  eg_inv s -> wf theta -> is_bijection theta = true ->
+  (forall v c, sub_get zeta v = Some c -> covers s c) ->
+  forall (p : Parser.pattern) (a : appid), List.NoDup (pbinders p) -> pat_below (Model.ctr s) p ->
+  (forall i c z, get_class s i = Ok c -> List.In z (c_slots c) -> (z < Model.ctr s)%N) ->
+  emb_root s theta zeta p a ->
+  forall l s', ematch_all_r p s = Ok (l, s') -> exists r, List.In r l /\ describes s' p theta zeta a r.
+Proof. exact emb_complete. Qed.
+Print Assumptions C04_embedded_instances_are_matched.
+
+Theorem C04_nested_complete_from_embedding : forall s p theta zeta,
+  match_inv s -> repr_emb s -> pat_ok s p -> inst_ok s p theta zeta -> complete_fresh s p theta zeta.
+Proof. exact complete_from_repr_emb. Qed.
+Print Assumptions C04_nested_complete_from_embedding.
